@@ -83,11 +83,14 @@ func (pConn *PFCPConn) handleHeartbeatRequest(msg message.Message) (message.Mess
 }
 
 func (pConn *PFCPConn) handleIncomingResponse(msg message.Message) {
-	req, ok := pConn.pendingReqs.Load(msg.Sequence())
+	req, ok := pConn.pendingReqs.LoadAndDelete(msg.Sequence())
 
 	if ok {
-		req.(*Request).reply <- msg
-		pConn.pendingReqs.Delete(msg.Sequence())
+		select {
+		case req.(*Request).reply <- msg:
+		default:
+			// a response is already waiting to be consumed: duplicates are dropped
+		}
 	}
 }
 
